@@ -642,8 +642,13 @@ func c14Worker(ctx *core.Ctx) *core.Result {
 	}
 	x.orc = oracles{routes: true}
 	x.runSpaces([]*space{routePairSpace("ASA"), routePairSpace("IOS")})
+	for _, f := range c14Extra {
+		f(ctx, x.res)
+	}
 	return x.res
 }
+
+var c14Extra []func(ctx *core.Ctx, res *core.Result)
 
 func init() {
 	registerSharded("C14", c14Worker, func(tier string) core.Meta {
